@@ -62,23 +62,31 @@ func c16Cases() []c16Case {
 			return "foo\n" + line + "\nbar\n"
 		case "in a block":
 			return "##!> assemble\nfoo\n" + line + "\n##!<\nbar\n"
+		case "in a nested block":
+			return "##!> assemble\nfoo\n##!> assemble\nx\n" + line + "\n##!<\n##!<\nbar\n"
+		case "after a good include":
+			return "##!> include inc\n" + line + "\nbar\n"
+		case "in the second include":
+			return "##!> include inc\n##!> include faulty\nbar\n"
+		case "in an include inside a block":
+			return "##!> assemble\nfoo\n##!> include faulty\n##!<\nbar\n"
 		default:
 			return "foo\n##!> include faulty\nbar\n"
 		}
 	}
 	for _, f := range c16LineFaults {
-		for _, where := range []string{"top level", "in a block", "in an include"} {
-			if where == "in a block" && (f.Name == "extra end marker" || f.Name == "missing end marker" || f.Name == "unsupported flag") {
+		for _, where := range []string{"top level", "in a block", "in an include", "in a nested block", "after a good include", "in the second include", "in an include inside a block"} {
+			if (where == "in a block" || where == "in a nested block") && (f.Name == "extra end marker" || f.Name == "missing end marker" || f.Name == "unsupported flag") {
 				continue // position makes it a different (or no) fault
 			}
-			if where == "in an include" && (f.Name == "unsupported flag" || f.Name == "flags inside an include") {
+			if strings.Contains(where, "include") && where != "after a good include" && (f.Name == "unsupported flag" || f.Name == "flags inside an include") {
 				continue
 			}
 			mk := func(file string) core.Tree {
 				t := c16Base()
 				t["regex-assembly/include/flagged.ra"] = "##!+ i\nfoo\n"
 				t["regex-assembly/"+file] = plant(where, f.Line)
-				if where == "in an include" {
+				if strings.Contains(where, "include") && where != "after a good include" {
 					t["regex-assembly/include/faulty.ra"] = "x\n" + f.Line + "\ny\n"
 				}
 				return t
